@@ -78,7 +78,7 @@ def case(spec):
                 if dialect == '6502' and r.random() < 0.3:
                     dopt = []
                 argv = [binp] + lo + dopt + ([path] if how == 'file' else ['-'])
-                r_ = run(argv, stdin=prog if how == 'stdin' else b'')
+                r_ = run(argv, stdin=prog if how == 'stdin' else b'', max_output=8 << 20)
                 res.execs += 1
                 res.events += len(lines)
                 k_ = clean_failure_key(r_, (0, 1))
